@@ -210,6 +210,10 @@ func TestVF_C16_Keys(t *testing.T) {
 	if rec.Thorough() && rec.Shard() < 3 {
 		jobs = append(jobs, job{1024, 3, 1})
 	}
+	if rec.Thorough() {
+		// half-lengths that are not a multiple of 8 bits
+		jobs = append(jobs, job{130, 2, 1}, job{146, 2, 2}, job{258, 2, 1})
+	}
 	seedOff := int(rec.Seed())
 	for ji, j := range jobs {
 		if !rec.Mine(ji) {
